@@ -26,3 +26,5 @@ for c in $checks; do
 done
 git -C /repo checkout -- .
 git -C /repo status --short | grep -v '^??' 
+# evidence written while a seeded change was applied must never be committed: restore the committed files
+git -C /verif checkout -- evidence 2>/dev/null
